@@ -38,8 +38,7 @@ Definition agrees (k : case) : bool :=
 Definition valid_off (ipd d : Z) : bool := (0 <=? d) && (d <? interval_ns ipd).
 
 Definition in_domain (k : case) : bool :=
-  existsb (Z.eqb (k_ipd k)) ipds && valid_off (k_ipd k) (k_off k) && valid_off (k_ipd k) (k_off2 k)
-  && guard_C10 (k_ipd k) (k_off k).
+  existsb (Z.eqb (k_ipd k)) ipds && valid_off (k_ipd k) (k_off k) && valid_off (k_ipd k) (k_off2 k).
 
 (** the property on the model: order preserved; decoded offset within one step below the original;
     exact for 1-second intervals *)
